@@ -40,11 +40,11 @@ VerOf(c) == IF Numbering[c] = 1 THEN 5 ELSE 4
 OInit == /\ cfg = Conf
          /\ subs = {} /\ owed = <<>> /\ gowed = {} /\ ctl = <<>> /\ ret = <<>> /\ unack = <<>> /\ infl = <<>> /\ last = <<>>
          /\ ctr = [pub |-> 0, oid |-> 0]
-         /\ aux = [wills |-> <<>>, reg |-> <<>>, closedc |-> {}, srvended |-> {}]
+         /\ aux = [wills |-> <<>>, reg |-> <<>>, closedc |-> {}, srvended |-> {}, sockc |-> {}, nreg |-> 0]
          /\ conn = [k \in 1..Cardinality(CIDs) |->
                      LET c == CHOOSE d \in CIDs : Numbering[d] = k IN
                      [cid |-> c, ver |-> VerOf(c), st |-> "up", clean |-> TRUE, recvmax |-> 0, expiry |-> 0, sawfresh |-> FALSE,
-                      maxpkt |-> 0, aliasmax |-> 0, open |-> 0, aliasin |-> <<>>, dying |-> {}, disc |-> FALSE, will |-> NoWill, addr |-> "", t0 |-> 0, force |-> FALSE, resumed |-> FALSE, bye |-> [has |-> FALSE, code |-> 0, exp |-> 0 - 1]]]
+                      maxpkt |-> 0, aliasmax |-> 0, open |-> 0, aliasin |-> <<>>, dying |-> {}, disc |-> FALSE, will |-> NoWill, addr |-> "", t0 |-> 0, force |-> FALSE, resumed |-> FALSE, regseq |-> 0, bye |-> [has |-> FALSE, code |-> 0, exp |-> 0 - 1]]]
          /\ sess = [c \in CIDs |-> [online |-> Numbering[c], ver |-> VerOf(c), expireAt |-> 0]]
          /\ q = [c \in CIDs |-> <<>>]
          /\ npid = [c \in CIDs |-> 1]
@@ -89,7 +89,7 @@ OpPublish(src, m) ==
 DoConnect(c, ver) ==
   /\ N(c) \notin DOMAIN conn
   /\ LET cn == Put(conn, N(c), [cid |-> c, ver |-> ver, st |-> "up", clean |-> TRUE, recvmax |-> 0, expiry |-> 0, sawfresh |-> FALSE,
-                      maxpkt |-> 0, aliasmax |-> 0, open |-> 0, aliasin |-> <<>>, dying |-> {}, disc |-> FALSE, will |-> NoWill, addr |-> "", t0 |-> 0, force |-> FALSE, resumed |-> FALSE, bye |-> [has |-> FALSE, code |-> 0, exp |-> 0 - 1]]) IN conn' = cn
+                      maxpkt |-> 0, aliasmax |-> 0, open |-> 0, aliasin |-> <<>>, dying |-> {}, disc |-> FALSE, will |-> NoWill, addr |-> "", t0 |-> 0, force |-> FALSE, resumed |-> FALSE, regseq |-> 0, bye |-> [has |-> FALSE, code |-> 0, exp |-> 0 - 1]]) IN conn' = cn
   /\ sess' = Put(sess, c, [online |-> N(c), ver |-> ver, expireAt |-> 0])
   /\ UNCHANGED <<cfg, subs, owed, gowed, ctl, ret, unack, infl, last, ctr, aux, q, npid>>
 
